@@ -6,6 +6,7 @@ package main
 import (
 	"bytes"
 	"context"
+	"crypto/md5"
 	"encoding/binary"
 	"encoding/json"
 	"errors"
@@ -25,12 +26,11 @@ import (
 	"github.com/Tnze/go-mc/bot"
 	"github.com/Tnze/go-mc/chat"
 	"github.com/Tnze/go-mc/data/packetid"
+	"github.com/Tnze/go-mc/nbt"
 	mcnet "github.com/Tnze/go-mc/net"
 	pk "github.com/Tnze/go-mc/net/packet"
-	"github.com/Tnze/go-mc/nbt"
 	"github.com/Tnze/go-mc/net/queue"
 	"github.com/Tnze/go-mc/registry"
-	"github.com/Tnze/go-mc/offline"
 	"github.com/Tnze/go-mc/server"
 	"github.com/Tnze/go-mc/yggdrasil/user"
 
@@ -586,8 +586,8 @@ func session(c *vm.Ctx, r *vm.Rand, si int, sess *sessionServer) {
 		c.Violation("identity/uuid-differs", fmt.Sprintf("server has UUID %v, bot has %v", gp.id, cl.UUID), wit())
 		return
 	}
-	if !online && gp.id != offline.NameToUUID(name) {
-		c.Violation("identity/not-offline-uuid", fmt.Sprintf("offline-mode UUID is %v, offline.NameToUUID gives %v", gp.id, offline.NameToUUID(name)), wit())
+	if !online && gp.id != refOfflineUUID(name) {
+		c.Violation("identity/not-offline-uuid", fmt.Sprintf("offline-mode UUID is %v, the version-3 UUID of OfflinePlayer:name is %v", gp.id, refOfflineUUID(name)), wit())
 		return
 	}
 	if online && gp.id != sessID {
@@ -757,6 +757,14 @@ func session(c *vm.Ctx, r *vm.Rand, si int, sess *sessionServer) {
 	if si < 2 {
 		c.Sample("session", wit())
 	}
+}
+
+// refOfflineUUID: Java's UUID.nameUUIDFromBytes(("OfflinePlayer:"+name).getBytes(UTF_8)).
+func refOfflineUUID(name string) uuid.UUID {
+	h := md5.Sum([]byte("OfflinePlayer:" + name))
+	h[6] = h[6]&0x0f | 0x30
+	h[8] = h[8]&0x3f | 0x80
+	return uuid.UUID(h)
 }
 
 func ping(c *vm.Ctx, r *vm.Rand) {
